@@ -273,6 +273,17 @@ pub fn note_request_base() {
     REQUEST_BASE.store(c, Ordering::SeqCst);
 }
 
+/// Set by drivers that want a collection that never finishes (the 60 s guards below) reported as
+/// a crash of the running program (`CHILD-CRASH GC-HANG ...`) instead of a bare exit status.
+pub static HANG_AS_CRASH: AtomicBool = AtomicBool::new(false);
+
+fn hang_exit() -> ! {
+    if HANG_AS_CRASH.load(Ordering::SeqCst) {
+        crate::shadowvm::worker_panic_to_crash("panicked at harness/vm.rs:0:0: a collection did not finish within 60 s (the mutator waited in block_for_gc / the collector waited for the mutator)");
+    }
+    std::process::exit(3);
+}
+
 pub fn with_state<R>(f: impl FnOnce(&mut VmState) -> R) -> R {
     let mut g = STATE.lock().unwrap_or_else(|p| p.into_inner());
     f(g.as_mut().expect("VM state not initialised"))
@@ -606,7 +617,7 @@ impl Collection<VerifVM> for VerifVM {
             std::thread::yield_now();
             if t0.elapsed().as_secs() > 60 {
                 eprintln!("VerifVM: stop_all_mutators waited 60 s for the mutator to block");
-                std::process::exit(3);
+                hang_exit();
             }
         }
         log_event(VmEvent::StopAllMutators);
@@ -723,7 +734,7 @@ impl Collection<VerifVM> for VerifVM {
             g = ng;
             if t0.elapsed().as_secs() > 60 {
                 eprintln!("VerifVM: block_for_gc waited 60 s without a GC finishing");
-                std::process::exit(3);
+                hang_exit();
             }
         }
         BLOCKED.store(false, Ordering::SeqCst);
